@@ -168,6 +168,8 @@ fn build_request(c: &Case, k: &Canaries) -> Req {
         auth,
         extra_headers: extra,
         payload: if c.method == "CONNECT" { b"ping".to_vec() } else { vec![] },
+        early_payload: false,
+            early_delay_ms: 0,
     }
 }
 
